@@ -179,6 +179,17 @@ CHECKS = {
                      "structurally, so a new table is covered without being named.",
                 ref="4 C19", note=NODE_NOTE + "; documented fixed-size windows (deques with maxlen, per-second slot "
                 "counters) excluded; growth threshold +2."),
+    "C16": dict(cat="exploration", tech="line-gated deterministic scheduler (sys.monitoring LINE events, one thread "
+                "runs at a time, DFS over thread choices with a preemption bound) + multiset oracle on the returned "
+                "identifiers; sequential sweeps; free-running stress as control",
+                text="All interleavings at source-line granularity with at most 3 preemptions (2 for the 3-thread x "
+                     "2-draw case in the quick tier) of 2..3 threads drawing 1..3 identifiers from one "
+                     "SequenceGenerator / SessionGenerator, start values mid, MAX-2, MAX-1, MAX (the evidence says per "
+                     "configuration whether the space was exhausted); 10^5 successive draws, wrap to 1, all 4096 "
+                     "start-time patterns of the end-to-end generator, Node initialisation on the virtual clock and "
+                     "the session-id format for 2000 counters.",
+                ref="4 C16", note=BASE_NOTE + "; line-boundary preemption is assumed possible (section 1.4 of "
+                "DESIGN.md); the scheduler's own locks replace the generator's lock instances."),
 }
 
 NOT_YET = "check not built yet in this round (planned in DESIGN.md section 4); no claim is made"
